@@ -27,20 +27,6 @@ def gen_scenario(rng, want_index=None, want_verify=None):
     for f in files:
         if rng.random() < 0.2:
             dest.add(f)
-    shallow = rng.random() < 0.6
-    req_dirs = [t for t in trees if rng.random() < 0.85] or [trees[0]]
-    req = list(req_dirs)
-    if shallow:
-        for t in req_dirs:  # closed request: every directory together with its files
-            for f in uni.listing(t):
-                if f not in req:
-                    req.append(f)
-    for f in files:
-        if rng.random() < 0.25 and f not in req:
-            req.append(f)
-    rng.shuffle(req)
-    cand = sorted(uni.closure(req) - dest)
-    fail = [o for o in cand if rng.random() < rng.choice([0.0, 0.2, 0.5])]
     pre = None
     index = (rng.random() < 0.5) if want_index is None else want_index
     if index and rng.random() < 0.5:
@@ -51,6 +37,32 @@ def gen_scenario(rng, want_index=None, want_verify=None):
             preq += [f for f in uni.listing(t) if f not in preq]
         pre = {"req": preq, "delete_dirs": [t for t in trees if rng.random() < 0.5],
                "delete_files": [f for f in files if rng.random() < 0.4]}
+    # a directory pushed (and indexed) earlier, collected remotely together with its files since, and NOT part of this request,
+    # while the request holds directories that may share files with it: the index must not vouch for the shared files
+    skip_dir = None
+    if pre and rng.random() < 0.6:
+        gone = [t for t in pre["delete_dirs"] if t in pre["req"]]
+        if gone and len(trees) > 1:
+            skip_dir = rng.choice(gone)
+            pre["delete_files"] = sorted(set(pre["delete_files"]) | set(uni.listing(skip_dir)))
+    shallow = rng.random() < 0.6
+    req_dirs = [t for t in trees if rng.random() < 0.85 and t != skip_dir] or [t for t in trees if t != skip_dir][:1] or [trees[0]]
+    if pre and rng.random() < 0.25:
+        req_dirs = []  # a request naming files only, after the remote lost objects the index still vouches for
+    req = list(req_dirs)
+    if shallow:
+        for t in req_dirs:  # closed request: every directory together with its files
+            for f in uni.listing(t):
+                if f not in req:
+                    req.append(f)
+    for f in files:
+        if rng.random() < (0.25 if req_dirs else 0.7) and f not in req:
+            req.append(f)
+    if not req:
+        req.append(files[0])
+    rng.shuffle(req)
+    cand = sorted(uni.closure(req) - dest)
+    fail = [o for o in cand if rng.random() < rng.choice([0.0, 0.2, 0.5])]
     # sometimes one failing file fails because its source object vanishes between the status query and the copy
     vanish = []
     if rng.random() < 0.3:
